@@ -32,6 +32,11 @@ def ranked_edges(v):
     return z3.ForAll([x, y], z3.Implies(v.edge[x][y], z3.And(S.valid(v, x), S.valid(v, y), rank(v, x) < rank(v, y))))
 
 
+def bounded_ranks(v):
+    """no node fixes more variables than the network has (consequence of I-space; makes the rank a bounded measure)"""
+    return z3.ForAll([x], z3.Implies(S.valid(v, x), rank(v, x) <= T.nvars(S.net(v))))
+
+
 def d1(v):
     """I-depth (edge consistency): a successor is at least one level deeper"""
     return z3.ForAll([x, y], z3.Implies(v.edge[x][y], v.depth[y] >= v.depth[x] + 1))
@@ -103,13 +108,16 @@ def install(reg):
         params=[("self", SD), ("node_id", TInt), ("parent_id", TInt)],
         properties=("C20",),
         requires=[lambda c: S.valid(c.self, c.node_id), lambda c: S.valid(c.self, c.parent_id),
-                  lambda c: c.self.edge[c.parent_id][c.node_id], lambda c: ranked_edges(c.self)],
+                  lambda c: c.self.edge[c.parent_id][c.node_id], lambda c: ranked_edges(c.self), lambda c: bounded_ranks(c.self)],
         modifies={"self": ["depth"]},
         ensures=[(n, (lambda k: (lambda c: dict(upd_post(c))[k]))(n)) for n in
                  ["frame.only_depth", "depth_never_decreases", "nodes_not_below_unchanged", "node_depth_exact",
                   "satisfied_edges_stay_satisfied", "edge_parent_node_satisfied"]],
         loops={0: LoopContract("for child_id in list(self.dag.successors(node_id))", upd_loop_inv, havoc_heap={"self": ["depth"]})},
         local_types={"new_depth": TInt},
+        # termination of the recursion: every edge goes to a space fixing strictly more variables (ranked_edges), and no space fixes
+        # more variables than the network has
+        rec_variant=lambda c: T.nvars(S.net(c.self)) - rank(c.self, c.node_id),
     ), method_of="SD")
     _install_core(reg)
     _install_expand(reg)
@@ -155,7 +163,7 @@ def _install_core(reg):
         params=[("self", SD), ("parent_id", TInt), ("child_id", TInt), ("stable_motif", TSpace)],
         properties=("C02", "C04", "C20", "C07"),
         requires=[lambda c: S.valid(c.self, c.parent_id), lambda c: S.valid(c.self, c.child_id),
-                  lambda c: ranked_edges(c.self), lambda c: d1(c.self),
+                  lambda c: ranked_edges(c.self), lambda c: d1(c.self), lambda c: bounded_ranks(c.self),
                   lambda c: rank(c.self, c.parent_id) < rank(c.self, c.child_id)],
         modifies={"self": ["edge", "motifs", "motif0", "succsig", "depth"]},
         ensures=[
@@ -191,6 +199,11 @@ def _install_core(reg):
         return z3.ForAll([i], z3.Implies(
             z3.And(S.valid(v, i), T.SKey(Nn, v.space[i]) == T.SKey(Nn, P), T.wf_space(P), T.dom_within(P, Nn)),
             v.space[i] == P))
+
+    def lem_card_bound(c):
+        sq = z3.Const("s!cb", T.SpaceS)
+        Nn = N(c.self)
+        return z3.ForAll([sq], z3.Implies(z3.And(T.wf_space(sq), T.dom_within(sq, Nn)), T.card(sq) <= T.nvars(Nn)), patterns=[T.card(sq)])
 
     OI = OptInt
 
@@ -240,7 +253,7 @@ def _install_core(reg):
         ensures=[(nm, (lambda k: (lambda c: dict(en_post(c))[k]))(nm)) for nm in
                  ["result_valid", "at_most_one_new_node", "net_unchanged", "new_node_is_clean_stub", "new_parentless_node", "old_nodes_unchanged", "edges",
                   "depth.never_decreases", "extends_unless_parent_expanded"] + ["inv." + nm for nm, _ in S.inv(M.View(_dummy_ho()))]],
-        lemmas=[("L2.perc_trap", lem_perc), ("L10.key_injective", lem_keyinj)],
+        lemmas=[("L2.perc_trap", lem_perc), ("L10.key_injective", lem_keyinj), ("def.card(bounded)", lem_card_bound)],
     ), method_of="SD")
 
 
